@@ -150,6 +150,16 @@ impl Shared {
         None
     }
 
+    /// verification hook (off unless built with `--cfg ckb_verif`): run one pass of the private, timer-driven
+    /// `freeze` synchronously; a no-op when the freezer is disabled
+    #[cfg(ckb_verif)]
+    pub fn verif_freeze_once(&self) -> Result<(), Error> {
+        if self.store.freezer().is_none() {
+            return Ok(());
+        }
+        self.freeze()
+    }
+
     fn freeze(&self) -> Result<(), Error> {
         let freezer = self.store.freezer().expect("freezer inited");
         let snapshot = self.snapshot();
@@ -179,6 +189,16 @@ impl Shared {
                 .expect("get_block_number"),
             frozen_number + MAX_FREEZE_LIMIT,
         );
+        #[cfg(ckb_verif)]
+        let threshold = match std::env::var("VERIF_FREEZE_LIMIT")
+            .ok()
+            .and_then(|s| s.parse::<BlockNumber>().ok())
+        {
+            Some(limit) => cmp::min(threshold, frozen_number + limit),
+            None => threshold,
+        };
+        #[cfg(ckb_verif)]
+        freezer.verif_point("threshold", threshold);
 
         ckb_logger::trace!(
             "Freezer current_epoch {} number {} threshold {}",
@@ -216,6 +236,10 @@ impl Shared {
         let mut batch = self.store.new_write_batch();
 
         ckb_logger::trace!("freezer wipe_out_frozen_data {} ", frozen.len());
+        #[cfg(ckb_verif)]
+        let verif_freezer = self.store.freezer().expect("freezer inited");
+        #[cfg(ckb_verif)]
+        verif_freezer.verif_point("wipe-bodies", frozen.len() as u64);
 
         if !frozen.is_empty() {
             // remain header
@@ -256,6 +280,8 @@ impl Shared {
             }
         }
 
+        #[cfg(ckb_verif)]
+        verif_freezer.verif_point("wipe-side", side.len() as u64);
         if !side.is_empty() {
             // Wipe out side chain
             for (hash, (number, txs)) in &side {
@@ -276,6 +302,8 @@ impl Shared {
                 self.compact_block_body(start, end);
             }
         }
+        #[cfg(ckb_verif)]
+        verif_freezer.verif_point("done", 0);
         Ok(())
     }
 
